@@ -84,6 +84,19 @@ func genC07(tier string, seed int64) []Case {
 		dd := d
 		cases = append(cases, Case{ID: "C07/" + d.Salt, Class: "idle-exit", Desc: d, Timeout: 150 * time.Second, Run: func(c *Ctx) { runC07(c, dd) }})
 	}
+	// a runtime whose init error report is larger than the response size limit, and that then exits / stalls / goes on
+	for i, progs := range [][][]string{
+		{{"initerror-huge", "exit1"}, {"next", "respond"}, {"next", "respond"}},
+		{{"initerror-huge", "stall"}, {"initerror-huge", "exit0"}, {"next", "respond"}},
+		{{"next", "respond", "next", "exit1"}, {"initerror-huge", "exit1"}, {"next", "respond"}},
+	} {
+		d := c07Desc{Salt: fmt.Sprintf("initerror-huge-%d", i), NExt: i % 2, Faulty: 3, T: 1500, Delays: map[string]int{}, Rt: progs}
+		for e := 0; e < d.NExt; e++ {
+			d.Ext = append(d.Ext, [][]string{{"register", "next", "next"}, {"register", "next", "next"}, {"register", "next", "next"}})
+		}
+		dd := d
+		cases = append(cases, Case{ID: "C07/" + d.Salt, Class: "initerror-huge", Desc: d, Timeout: 200 * time.Second, Run: func(c *Ctx) { runC07(c, dd) }})
+	}
 	// a client that asks for the (large) event again on a second connection and never reads the answer
 	for i, progs := range [][][]string{
 		{{"next", "next-noread", "stall"}, {"next", "respond"}, {"next", "respond"}},
@@ -301,6 +314,15 @@ func runC07(c *Ctx, d c07Desc) {
 						mu.Unlock()
 						fault(p, s)
 						pt.InitError(b, map[string]string{"Lambda-Runtime-Function-Error-Type": "Runtime.Init"})
+					case "initerror-huge":
+						// an init error report whose body is larger than the response size limit
+						b := append([]byte(`{"errorType":"Runtime.HugeInit","errorMessage":"`), bytes.Repeat([]byte("x"), 7<<20)...)
+						b = append(b, '"', '}')
+						mu.Lock()
+						initErrs = append(initErrs, b)
+						mu.Unlock()
+						fault(p, s)
+						pt.InitError(b, map[string]string{"Lambda-Runtime-Function-Error-Type": "Runtime.HugeInit"})
 					case "restorenext":
 						fault(p, s)
 						pt.RestoreNext()
